@@ -68,14 +68,45 @@ func enclosingLoopHeads(fg *FGraph, body *ast.BlockStmt, pos token.Pos) []int {
 	return out
 }
 
+// scannerMethods: every method (Scan and whatever helpers it was split into) of the
+// scanner types - the struct types of the package that own a `buf` and a `token` field.
+func scannerMethods(c *Ctx) []*FuncInfo {
+	var out []*FuncInfo
+	for _, fi := range c.AllFuncDecls(readaheadPkg) {
+		if fi.Decl.Recv == nil || len(fi.Decl.Recv.List) != 1 {
+			continue
+		}
+		rt := fi.Pkg.TypesInfo.TypeOf(fi.Decl.Recv.List[0].Type)
+		if p, ok := rt.(*types.Pointer); ok {
+			rt = p.Elem()
+		}
+		st, ok := rt.Underlying().(*types.Struct)
+		if !ok {
+			continue
+		}
+		hasBuf, hasTok := false, false
+		for i := 0; i < st.NumFields(); i++ {
+			switch st.Field(i).Name() {
+			case "buf":
+				hasBuf = true
+			case "token":
+				hasTok = true
+			}
+		}
+		if hasBuf && hasTok {
+			out = append(out, fi)
+		}
+	}
+	return out
+}
+
 func c04Buffers(c *Ctx, r *Report, prefix string) {
 	rule := prefix + "/buffer-writes"
-	scans := scannerScanFuncs(c)
-	if len(scans) == 0 {
+	if len(scannerScanFuncs(c)) == 0 {
 		r.Undecided(rule, readaheadPkg, "Scan methods", "-", "no scanner Scan method found")
 		return
 	}
-	for _, fi := range scans {
+	for _, fi := range scannerMethods(c) {
 		info := fi.Pkg.TypesInfo
 		fg := NewFGraph(fi.Decl.Body, info)
 		isMake := func(nd *FNode) bool {
